@@ -558,7 +558,7 @@ def run(ctx):
         ints.add(rng.choice([1, -1]) * rng.getrandbits(rng.choice([9, 17, 25, 33, 41, 70, 130])))
     ints = sorted(ints)
     strs = [b""] + [bytes([a]) for a in range(256)] + [bytes([a, b]) for a in range(256) for b in range(256)]
-    for _ in range(ctx.n(10000, 1000000)):
+    for _ in range(ctx.n(10000, 400000)):
         strs.append(rbytes(rng, 3))
     for _ in range(ctx.n(8000)):
         strs.append(rbytes(rng, rng.choice([4, 4, 4, 5, 6, 8, 9, 17])))
@@ -660,7 +660,7 @@ def run(ctx):
                               note=f"opcode {code} differs from consensus")
                 continue
         elif s is not None:
-            rec.count("op:spec_" + s.lower())
+            rec.count("op:spec_" + s.split(" ")[0].lower() + (":model_valueerror" if n07f else ""))
         if rec.compare("op", {"line": ml, "oracle": "model"}, impl, m, determined=False, key=key,
                        nontrivial=(impl != REJECT or depth > 0)):
             rec.sample(f"op{code}", {"request": ml, "answer": m}, limit=1)
@@ -705,8 +705,43 @@ def run(ctx):
         rec.count(f"timelock{code}:" + impl.split(" ")[0])
 
     # ---------------------------------------------------------------- 4. programs
+    def flush(progs):
+        """run one chunk of programs (kind, cmds, locktime, sequence, version) on both sides and record"""
+        if not progs:
+            return
+        m_lines = [f"eval r {lt} {seq} {ver} {fmt_cmds(c)}" for _, c, lt, seq, ver in progs]
+        s_lines = [f"spec_eval {lt} {seq} {ver} {fmt_cmds(c)}" for _, c, lt, seq, ver in progs]
+        both = batch_parallel(drv, m_lines + s_lines, workers=DW)
+        mod, spc = both[:len(m_lines)], both[len(m_lines):]
+        impls = impl_parallel(m_lines, W)
+        for (kind, cmds, lt, seq, ver), ml, sl, m, sp, (impl, rot6) in zip(progs, m_lines, s_lines, mod, spc, impls):
+            mo, trig, ve = m.split(" ")
+            if mo == "FUEL":
+                raise MachineryError(f"model ran out of fuel on: {ml[:300]}")
+            scope = (trig == "trig=0" and ve == "ve=0" and _spec_scope(sp) and in_subset(cmds)
+                     and else_counts_ok(cmds))
+            if scope:
+                if impl != sp:
+                    rec.violation("prog_spec", {"line": sl, "oracle": "spec"}, impl, sp,
+                                  finding="F07b" if rot6 else None, note="evaluate differs from consensus")
+                    continue
+            else:
+                why = ("trigger" if trig != "trig=0" else "valueerror_N07f" if ve != "ve=0"
+                       else sp.lower() if not _spec_scope(sp)
+                       else "opcode_outside_set" if not in_subset(cmds) else "repeated_else")
+                rec.count(f"{kind}:outside_scope:{why}"
+                          + ("" if (impl == sp or not _spec_scope(sp)) else ":differs_from_spec"))
+            if rec.compare(kind, {"line": ml, "oracle": "model"}, impl, mo, determined=False, key=ml,
+                           nontrivial=len(cmds) > 1):
+                rec.sample(f"{kind}:{impl}", {"request": ml, "answer": m, "spec": sp}, limit=1)
+            rec.count(f"{kind}:{impl}")
+            rec.count(f"prog_len:{min(40, (len(cmds) + 9) // 10 * 10)}")
+            if any(c in (99, 100) for c in cmds):
+                rec.count("prog:with_conditional")
+
+    CHUNK = 150000
     progs = []   # (kind, cmds, lt, seq, ver)
-    n_main = ctx.n(60000, 1200000)
+    n_main = ctx.n(50000, 600000)
     streams = [("prog", dict(), n_main), ("prog_multi_else", dict(multi_else=True), n_main // 20),
                ("prog_junk", dict(junk=True), n_main // 20), ("prog_trigger", dict(big_push=True), n_main // 20)]
     for kind, kw, n in streams:
@@ -717,11 +752,14 @@ def run(ctx):
                    2 ** 31 + 5, 500000000, 0, -1, 2 ** 22 + 3]
             cmds = g.program(rng.choice([5, 10, 20, 40, 40]), tlo)
             progs.append((kind, cmds, lt, seq, ver))
+            if len(progs) >= CHUNK:
+                flush(progs)
+                progs = []
     # P2SH patterns (the redeem script really runs): model correspondence only
     import hashlib
+    from buidl.script import Script
     g = ProgGen(rng)
     for _ in range(ctx.n(1500)):
-        from buidl.script import Script
         inner = g.program(8, [0])
         try:
             raw = Script(inner).raw_serialize()
@@ -738,35 +776,7 @@ def run(ctx):
             progs.append(("prog_trigger", [first, h], 0, 0, 1))
             progs.append(("prog_trigger", [first, h, 81], 0, 0, 1))
             progs.append(("prog_trigger", [81, first, h], 0, 0, 1))
-
-    m_lines = [f"eval r {lt} {seq} {ver} {fmt_cmds(c)}" for _, c, lt, seq, ver in progs]
-    s_lines = [f"spec_eval {lt} {seq} {ver} {fmt_cmds(c)}" for _, c, lt, seq, ver in progs]
-    both = batch_parallel(drv, m_lines + s_lines, workers=DW)
-    mod, spc = both[:len(m_lines)], both[len(m_lines):]
-    impls = impl_parallel(m_lines, W)
-    for (kind, cmds, lt, seq, ver), ml, sl, m, sp, (impl, rot6) in zip(progs, m_lines, s_lines, mod, spc, impls):
-        mo, trig, ve = m.split(" ")
-        if mo == "FUEL":
-            raise MachineryError(f"model ran out of fuel on: {ml[:300]}")
-        scope = (trig == "trig=0" and ve == "ve=0" and _spec_scope(sp) and in_subset(cmds)
-                 and else_counts_ok(cmds))
-        if scope:
-            if impl != sp:
-                rec.violation("prog_spec", {"line": sl, "oracle": "spec"}, impl, sp,
-                              finding="F07b" if rot6 else None, note="evaluate differs from consensus")
-                continue
-        else:
-            why = ("trigger" if trig != "trig=0" else "valueerror_N07f" if ve != "ve=0"
-                   else sp.lower() if not _spec_scope(sp)
-                   else "opcode_outside_set" if not in_subset(cmds) else "repeated_else")
-            rec.count(f"{kind}:outside_scope:{why}" + ("" if (impl == sp or not _spec_scope(sp)) else ":differs_from_spec"))
-        if rec.compare(kind, {"line": ml, "oracle": "model"}, impl, mo, determined=False, key=ml,
-                       nontrivial=len(cmds) > 1):
-            rec.sample(f"{kind}:{impl}", {"request": ml, "answer": m, "spec": sp}, limit=1)
-        rec.count(f"{kind}:{impl}")
-        rec.count(f"prog_len:{min(40, (len(cmds) + 9) // 10 * 10)}")
-        if any(c in (99, 100) for c in cmds):
-            rec.count("prog:with_conditional")
+    flush(progs)
 
 
 def replay(ctx, v):
